@@ -78,6 +78,20 @@ let register () =
             (n_of_token dir) (bytes_of_token proto) (bytes_of_token stream) (bytes_of_token param) in
         token_of_n (AuthSimple.sa_code r)
       | _ -> "bad-args");
+  (* end-to-end: a real httpflv / httpts SubSession offered to a real ServerManager *)
+  Registry.register "c14.smsub" (function
+      | [flags; key; ovr; kind; stream; param; md5t; pq; low] ->
+        let f = int_of_string flags in
+        let cfg = { AuthSimple.sa_key = bytes_of_token key; sa_override = bytes_of_token ovr;
+                    sa_pub_rtmp = bit f 0; sa_sub_rtmp = bit f 1; sa_sub_flv = bit f 2; sa_sub_ts = bit f 3;
+                    sa_pub_rtsp = bit f 4; sa_sub_rtsp = bit f 5; sa_hls_m3u8 = bit f 6 } in
+        let pqv = parse_pq pq in
+        let proto = bytes_of_string (if kind = "0" then "FLV" else "TS") in
+        let r = AuthSimple.sa_decide_gen (fn_total "md5" md5t) (fun _ -> pqv) (fn_total "lower" low) fixed cfg
+            (n_of_int 1) proto (bytes_of_token stream) (bytes_of_token param) in
+        let g = AuthGate.sm_on_new_http_sub r in
+        Printf.sprintf "%s %s %s" (token_of_n g.AuthGate.go_code) (token_of_n g.AuthGate.go_listed) (token_of_bool g.AuthGate.go_wrote)
+      | _ -> "bad-args");
   Registry.register "c14.secret" (function
       | [key; stream; md5t] -> hex_of_bytes (AuthSimple.calc_secret (fn_total "md5" md5t) (bytes_of_token key) (bytes_of_token stream))
       | _ -> "bad-args");
